@@ -171,11 +171,16 @@ def field_offset(ty, idx, structs):
 # evaluation
 
 class Bool:
-    """tri-state truth value; rel = (pred, a, b) when it is the result of an integer comparison"""
-    __slots__ = ("v", "why", "rel")
+    """tri-state truth value; rel = (pred, a, b) when it is the result of an integer comparison; hint = the comparison of an undecided operand when the
+    value is a connective of comparisons (what a case split should decide first)"""
+    __slots__ = ("v", "why", "rel", "hint")
 
-    def __init__(self, v, why="", rel=None):
+    def __init__(self, v, why="", rel=None, hint=None):
         self.v, self.why, self.rel = v, why, rel
+        self.hint = hint if hint is not None else rel
+
+
+ITE_REL = {}          # ite[...] atom key -> comparison its condition came from
 
 
 HUGE = 1 << 62
@@ -253,6 +258,9 @@ def sdiv(a, b, signs):
     q = a.divexact(b)
     if q is not None and all(c.denominator == 1 for c in q.t.values()):
         return q
+    # 0 <= a < b: the quotient is zero
+    if not b.is_const() and sign(a, signs) in (POS, NONNEG, ZERO) and sign(b - a, signs) == POS:
+        return Poly()
     # Euclidean division visible in the polynomial: a == q*b + r with q >= 0 and 0 <= r < b under the case's sign assumptions
     # (mixed-radix positions d0*z1 + d1 with d1 < z1); then the truncating quotient is q
     if not b.is_const() and len(a.t) <= 40 and sign(b, signs) == POS:
@@ -264,7 +272,22 @@ def sdiv(a, b, signs):
                 if (all(c.denominator == 1 for c in q.t.values()) and all(c.denominator == 1 for c in r.t.values())
                         and sign(q, signs) in (POS, NONNEG, ZERO) and sign(r, signs) in (POS, NONNEG, ZERO) and sign(b - r, signs) == POS):
                     return q
-    return atom("div", a, b)
+        # ... or with a quotient the sub-case's assumptions speak about (another division by the same divisor): a == q*b + r, 0 <= r < b
+        for fq, _c in (signs.get("__facts") or []) if isinstance(signs, dict) else ():
+            for sy in fq.symbols():
+                if sy.startswith("div[") and sy in _atoms and _atoms[sy][1][1] == b:
+                    for q in (Poly.sym(sy), Poly.sym(sy) + 1, Poly.sym(sy) - 1):
+                        r = a - q * b
+                        if sign(q, signs) in (POS, NONNEG, ZERO) and sign(r, signs) in (POS, NONNEG, ZERO) and sign(b - r, signs) == POS:
+                            return q
+    res = atom("div", a, b)
+    if isinstance(signs, dict) and sign(b, signs) == POS:
+        sa = sign(a, signs)
+        if sa in (POS, NONNEG, ZERO):
+            signs.setdefault(next(iter(res.symbols())), NONNEG)      # truncating quotient of a non-negative by a positive number
+        elif sa in (NEG, NONPOS):
+            signs.setdefault(next(iter(res.symbols())), NONPOS)
+    return res
 
 
 def _revkey(m):
@@ -414,6 +437,12 @@ class Evaluator:
                 r = Poly.const(1) - a            # logical negation of a value known to be 0 or 1 (a widened comparison result)
             elif op == "xor" and a.is_const() and a.const_value() == 1 and _is01(b):
                 r = Poly.const(1) - b
+            elif op == "or" and (a.is_zero() or b.is_zero()):
+                r = b if a.is_zero() else a
+            elif op == "or":
+                # bitwise or of two integers: all that is known about it here is when it is zero (both operands are), which is how a
+                # conjunction of zero tests is written ((x | y) == 0)
+                r = atom("bitor", a, b)
             else:
                 raise Inconclusive("integer %s" % op)
             env[dst] = r
@@ -424,6 +453,10 @@ class Evaluator:
                 raise Inconclusive("unparsed comparison: " + rhs[:80])
             pred, ty, a_s, b_s = mm.groups()
             a, b = self.val(a_s, env), self.val(b_s, env)
+            zt = self.bitor_zero_test(pred, a, b, signs)
+            if zt is not None:
+                env[dst] = zt
+                return None
             env[dst] = Bool(decide_cmp(pred, a, b, signs), "%s %r , %r" % (pred, a, b), (pred, a, b) if isinstance(a, Poly) and isinstance(b, Poly) else None)
             return None
         if op == "select":
@@ -440,7 +473,7 @@ class Evaluator:
                     pass
                 x, y = self.val(mm.group(3), env), self.val(mm.group(5), env)
                 if isinstance(x, Bool) or isinstance(y, Bool):
-                    env[dst] = Bool(None, "select(%s)" % c.why)
+                    env[dst] = Bool(None, "select(%s)" % c.why, hint=c.hint)
                 else:
                     # select on x == c between two forms that coincide when x == c (a special case written out for speed): the general form
                     same = None
@@ -460,7 +493,12 @@ class Evaluator:
                                 except Exception:
                                     pass
                                 break
-                    env[dst] = same if same is not None else atom("ite", c.why, x, y)
+                    if same is not None:
+                        env[dst] = same
+                    else:
+                        env[dst] = atom("ite", c.why, x, y)
+                        if c.hint is not None:
+                            ITE_REL[next(iter(env[dst].symbols()))] = c.hint
                 return None
             env[dst] = self.val(mm.group(3) if c.v else mm.group(5), env)
             return None
@@ -477,7 +515,9 @@ class Evaluator:
             if mm:
                 c = self.val(mm.group(1), env)
                 if c.v is None:
-                    raise Inconclusive("branch on undecided condition (%s) in %s" % (c.why, fname))
+                    e_ = Inconclusive("branch on undecided condition (%s) in %s" % (c.why, fname))
+                    e_.rel = c.hint
+                    raise e_
                 return ("br", mm.group(2) if c.v else mm.group(3))
             mm = re.match(r"^br label (\S+)$", rhs)
             return ("br", mm.group(1))
@@ -710,6 +750,35 @@ class Evaluator:
             raise Inconclusive("unreachable reached in " + fname)
         raise Inconclusive("unsupported instruction: " + ins[:80])
 
+    def bitor_zero_test(self, pred, a, b, signs):
+        """(x | y | ...) == 0  <=>  every operand is zero; None when the comparison is not of that form"""
+        if pred not in ("eq", "ne") or not (isinstance(a, Poly) and isinstance(b, Poly)):
+            return None
+        if a.is_zero():
+            a, b = b, a
+        if not b.is_zero():
+            return None
+        sy = list(a.symbols())
+        if len(sy) != 1 or not sy[0].startswith("bitor[") or a != Poly.sym(sy[0]):
+            return None
+
+        def leaves(p):
+            s_ = list(p.symbols())
+            if len(s_) == 1 and s_[0].startswith("bitor[") and p == Poly.sym(s_[0]):
+                k_, args = _atoms[s_[0]]
+                return leaves(args[0]) + leaves(args[1])
+            return [p]
+        ops_ = leaves(a)
+        res = Bool(True)
+        for o in ops_:
+            t = Bool(decide_cmp("eq", o, Poly.const(0), signs), "eq %r , 0" % o, ("eq", o, Poly.const(0)))
+            res = self.boolop("and", res, t)
+        if pred == "ne":
+            if res.v is None:
+                return Bool(None, "not(%s)" % res.why, hint=res.hint)
+            return Bool(not res.v, "not(%s)" % res.why)
+        return res
+
     def boolop(self, op, a, b):
         av = a.v if isinstance(a, Bool) else (None if not a.is_const() else a.const_value() != 0)
         bv = b.v if isinstance(b, Bool) else (None if not b.is_const() else b.const_value() != 0)
@@ -719,16 +788,25 @@ class Evaluator:
                 return Bool(False, why)
             if av is True and bv is True:
                 return Bool(True, why)
-            return Bool(None, why)
+            # x and true == x: the undecided operand keeps its identity (its comparison is what a later select may be collapsed on)
+            if av is True and isinstance(b, Bool):
+                return b
+            if bv is True and isinstance(a, Bool):
+                return a
+            return Bool(None, why, hint=getattr(a, "hint", None) if av is None else getattr(b, "hint", None))
         if op == "or":
             if av is True or bv is True:
                 return Bool(True, why)
             if av is False and bv is False:
                 return Bool(False, why)
-            return Bool(None, why)
+            if av is False and isinstance(b, Bool):
+                return b
+            if bv is False and isinstance(a, Bool):
+                return a
+            return Bool(None, why, hint=getattr(a, "hint", None) if av is None else getattr(b, "hint", None))
         if op == "xor":
             if av is None or bv is None:
-                return Bool(None, why)
+                return Bool(None, why, hint=getattr(a, "hint", None) if av is None else getattr(b, "hint", None))
             return Bool(av != bv, why)
         raise Inconclusive("bool op " + op)
 
